@@ -217,6 +217,17 @@ impl<P: Problem> Condition<P> for Counting<P> {
     }
 }
 
+/// Harness condition: the current population exists and every individual in it is evaluated.
+#[derive(Clone, Serialize)]
+pub struct AllEvaluated;
+
+impl<P: Problem> Condition<P> for AllEvaluated {
+    fn evaluate(&self, _problem: &P, state: &mut State<P>) -> ExecResult<bool> {
+        let pops = state.populations();
+        Ok(pops.get_current().map(|c| c.iter().all(|i| i.is_evaluated())).unwrap_or(false))
+    }
+}
+
 pub fn termination<P: Problem>(term: Term) -> (Box<dyn Condition<P>>, Arc<AtomicU32>, Arc<AtomicU32>) {
     let tests = Arc::new(AtomicU32::new(0));
     let trues = Arc::new(AtomicU32::new(0));
